@@ -10,8 +10,8 @@ EXTENDS MC_Out, IOUtils
 Runs == ndJsonDeserialize(IOEnv.CONF)
 VARIABLES l, ti
 cvars == <<vars, l, ti>>
-Cmp == {"out", "send_poll", "send_done"}
-P(ev) == [e |-> ev.e, k |-> ev.k, s |-> ev.s, id |-> ev.id, q |-> ev.q]
+Cmp == {"out", "send_poll", "send_done", "ctl"}
+P(ev) == [e |-> ev.e, k |-> ev.k, s |-> IF ev.e = "ctl" THEN 0 ELSE ev.s, id |-> ev.id, q |-> ev.q]
 Map(sel) == [i \in 1..Len(sel) |-> P(sel[i])]
 Proj(evs) == Map(SelectSeq(evs, LAMBDA ev : ev.e \in Cmp /\ ev.e # "out")) \o Map(SelectSeq(evs, LAMBDA ev : ev.e = "out"))
 CInit == Init /\ l = 1 /\ ti = 1
